@@ -21,10 +21,10 @@ TEXT = {'text': 'Kernel-checked theorems over the per-field merge policy table t
          'complement is pinned by computation: the output commitments are fixed by the unique id (C14_commitments_fixed_by_uid), tx_data.fallback_locktime and the '
          'clearing of non_witness_utxo are unrepaired findings refuted by witnesses; the xpub key-source reconciliation equals its documented algorithm and never '
          'panics, for every pair of key sources (C14_xpub, unconditional after the F2+F4 repair); both merge orders of compatible descendants give the same PSET '
-         '(C14_commutes); the scalar list, whose extend/sort/dedup statements are read in source order and executed exactly, merges to a duplicate-free sorted union in either direction for any two lists (C14_scalars); (the k-member family statement is kept visible, proved for k = 2, exercised for k <= 4 by the run). Model and crate are run on the same '
+         '(C14_commutes); the scalar list, whose extend/sort/dedup statements are read in source order and executed exactly, merges to a duplicate-free sorted union in either direction for any two lists (C14_scalars); every binary merge tree over every permutation of a family of k compatible descendants that agree on the transaction-identifying fields succeeds and gives the same PSET (C14_family, by characterising results as joins of their leaves; C14_family_three: (a.b).c = a.(b.c) = (c.a).b for three concrete descendants). ' 'Model and crate are run on the same '
          'PSETs on every check.',
  'design_ref': 'DESIGN.md section 6, C14',
  'note': 'Trusted: Coq kernel; translator (statement recogniser for fn merge bodies; unknown statements are a hard error); hand-written semantics of each '
-         'statement kind; opaque canonical field values; harness listing code; unique id abstract in theorems. Open: C14_family for k > 2; the unrepaired finding '
+         'statement kind; opaque canonical field values; harness listing code; unique id abstract in theorems. Open: the unrepaired finding '
          'C14-locktime-max-changes-unique-id (merge can change the unique id through max() on required lock times).',
  'technique': 'Coq proof generic in the regenerated policy table + per-run model/implementation correspondence'}
